@@ -1,5 +1,6 @@
 CONSTANTS
   AsFound = FALSE
+  InPlace = FALSE
   MdLen = 2
 INIT Init
 NEXT Next
